@@ -33,9 +33,10 @@ def run(chk):
     cov['distinct_nontrivial'] = int(t.get('nontrivial', 0))
     cov['rule'] = ('one case = one history of N operations on a fresh long-lived face (options default or preloadAll chosen per history) with a probe every 5 operations; evaluations = probes compared; '
                    'non-trivial = compared probes of >= 2 characters that returned a segment; distinct by (history seed, position)')
-    for k in ('fonts_not_loaded', 'histories', 'ops', 'op_shape', 'op_justify', 'op_destroy', 'op_query', 'op_featureval', 'op_font', 'op_shape_near_miss_of_probe', 'swap_pairs', 'swap_pairs_where_the_variation_matters', 'label_swap_pairs', 'label_swap_pairs_with_different_answers', 'max_swap_variations_of_a_font', 'reports_compared', 'label_probes_compared', 'rules_fired', 'histories_with_rules'):
+    for k in ('fonts_not_loaded', 'histories', 'ops', 'op_shape', 'op_justify', 'op_destroy', 'op_query', 'op_featureval', 'op_font', 'op_shape_near_miss_of_probe', 'swap_pairs', 'swap_pairs_where_the_variation_matters', 'label_swap_pairs', 'label_swap_pairs_with_different_answers', 'max_swap_variations_of_a_font', 'reports_compared', 'label_probes_compared', 'font_probes_compared_hinted', 'font_probes_compared_plain', 'rules_fired', 'histories_with_rules'):
         cov[k] = int(t.get(k, 0))
     cov['shipped_fonts'] = len(fonts.shipped())
     cov['synth_fonts'] = npaths
     cov['samples'] = cov['samples'][:12]
     chk.require(t.get('probes_compared', 0) > 1000, 'too few probes')
+    chk.require(t.get('font_probes_compared_hinted', 0) > 200, 'too few probes through a long-lived hinted font')
